@@ -275,3 +275,161 @@ def failing_transform_cache_check(ctx, n):
             ctx.violation({"kind": "cached_ne_uncached", "dimension": "failing_transform_cache"},
                           "after a run in which the transform failed, `group --cache` differs from the uncached run", payload, found_input=True)
         shutil.rmtree(base, ignore_errors=True)
+
+
+def cached_transform_length_check(ctx, n):
+    """C01 with cache + a LENGTH-CHANGING transform (`head -c N`): the length printed for a group is the length of the transform
+    output in the first (cold) cached run, in the second (warm) cached run and without the cache, and the groups are the same."""
+    core.build_fclones()
+    for i in range(n):
+        rng = ctx.rng.fork()
+        base = os.path.join(ctx.scratch, "ctl%d" % i)
+        root = os.path.join(base, "r")
+        shutil.rmtree(base, ignore_errors=True)
+        os.makedirs(root)
+        keep = rng.choice([5, 100, 4096])
+        heads = [treegen.content(rng.next(), keep) for _ in range(2)]
+        for k in range(5 + rng.below(4)):
+            with open(os.path.join(root, "f%d" % k), "wb") as f:
+                f.write(heads[k % 2] + treegen.content(rng.next(), 10 + 37 * k))        # equal heads, different lengths on disk
+        cache_home = os.path.join(base, "cache")
+        env0 = {"FCLONES_VERIF_DISK_KIND": rng.choice(["ssd", "hdd"]), "XDG_CACHE_HOME": cache_home, "HOME": cache_home}
+        opts = ["--transform", "head -c %d" % keep] + rng.choice([[], ["--rf-over", "0"], ["--threads", "1"]])
+        runs = []
+        for extra in (["--cache"], ["--cache"], []):
+            rc, out, err = treegen.fclones(["group", root, "-f", "json"] + extra + opts, env=env0)
+            runs.append((rc, out, err))
+        ctx.count()
+        ctx.distinct(("ctl", i, keep, tuple(opts[2:])), True)
+        ctx.bump("cached_length_changing_transform", "head -c %d" % keep)
+        payload = {"scenario": "group --transform 'head -c %d' over files of different lengths: cold cached, warm cached, uncached" % keep, "opts": opts}
+        if any(r[0] != 0 for r in runs):
+            ctx.violation({"kind": "run_failed", "dimension": "cached_transform_length"}, "fclones group failed %r" % [r[0] for r in runs], payload, found_input=True)
+            continue
+        gs = [treegen.parse_json_report(r[1].decode("utf-8"))[1] for r in runs]
+        keyed = [sorted((g["len"], tuple(sorted(g["files"]))) for g in g_) for g_ in gs]
+        payload["groups"] = [[[l, [p.decode() for p in fs]] for l, fs in k_] for k_ in keyed]
+        for name, g_ in zip(("cold cached", "warm cached", "uncached"), gs):
+            for g in g_:
+                outs = {open(p, "rb").read()[:keep] for p in g["files"]}
+                if len(outs) > 1 or any(len(o) != g["len"] for o in outs):
+                    ctx.violation({"kind": "group_not_identical", "dimension": "cached_transform_length"},
+                                  "%s run: a group's printed length %d is not the length of its members' transform output (%s)" % (
+                                      name, g["len"], sorted(len(o) for o in outs)), payload, found_input=True)
+                    break
+        if keyed[1] != keyed[2] or keyed[0] != keyed[2]:
+            ctx.violation({"kind": "cached_ne_uncached", "dimension": "cached_transform_length"},
+                          "the cached runs of a length-changing transform differ from the uncached run (groups or printed lengths)", payload, found_input=True)
+        shutil.rmtree(base, ignore_errors=True)
+
+
+def symlink_target_rewrite_cache_check(ctx, n):
+    """C01 with `-S --cache`: the scanned directory holds symbolic links to files OUTSIDE it; between two cached runs one target is
+    overwritten in place (same length, other bytes, ordinary write => newer mtime).  The entry cached for the link describes the
+    TARGET's data, so it must be validated against the target's metadata: the second run is byte-sound through the links and equals
+    the uncached run."""
+    import time
+    core.build_fclones()
+    for i in range(n):
+        rng = ctx.rng.fork()
+        base = os.path.join(ctx.scratch, "slc%d" % i)
+        shutil.rmtree(base, ignore_errors=True)
+        links, outd = os.path.join(base, "links"), os.path.join(base, "outside")
+        os.makedirs(links)
+        os.makedirs(outd)
+        size = rng.choice([100, 20000, 70000])
+        data = treegen.content(rng.next(), size)
+        nt = 2 + rng.below(3)
+        for k in range(nt):
+            t = os.path.join(outd, "t%d" % k)
+            with open(t, "wb") as f:
+                f.write(data)
+            os.utime(t, (1_600_000_000 + k, 1_600_000_000 + k))
+            os.symlink(t if rng.chance(1, 2) else os.path.relpath(t, links), os.path.join(links, "l%d" % k))
+        cache_home = os.path.join(base, "cache")
+        env0 = {"FCLONES_VERIF_DISK_KIND": "ssd", "XDG_CACHE_HOME": cache_home, "HOME": cache_home}
+        opts = ["-S"] + rng.choice([[], ["--threads", "1"], ["--hash-fn", "blake3"]])
+        rc1, out1, _ = treegen.fclones(["group", links, "--cache", "-f", "json"] + opts, env=env0)
+        victim = os.path.join(outd, "t%d" % rng.below(nt))
+        pos = rng.choice([0, size // 2, size - 1])
+        with open(victim, "r+b") as f:
+            f.seek(pos)
+            f.write(bytes([data[pos] ^ 0x5A]))
+        now = time.time()
+        os.utime(victim, (now, now))
+        rc2, out2, err2 = treegen.fclones(["group", links, "--cache", "-f", "json"] + opts, env=env0)
+        rc3, out3, _ = treegen.fclones(["group", links, "-f", "json"] + opts, env=env0)
+        ctx.count()
+        ctx.distinct(("slc", i, size, pos, tuple(opts)), True)
+        ctx.bump("symlink_target_rewritten_between_cached_runs", "byte %s" % ("first" if pos == 0 else "last" if pos == size - 1 else "middle"))
+        payload = {"scenario": "links/l* -> outside/t* (equal), group -S --cache; one target overwritten in place (same length, newer mtime); "
+                               "group -S --cache again", "rewritten": victim, "opts": opts, "stderr_run2": err2.decode("utf-8", "replace")[-300:]}
+        if rc1 != 0 or rc2 != 0 or rc3 != 0:
+            ctx.violation({"kind": "run_failed", "dimension": "symlink_cache"}, "fclones group failed (%d %d %d)" % (rc1, rc2, rc3), payload, found_input=True)
+            continue
+        g2 = treegen.parse_json_report(out2.decode("utf-8"))[1]
+        g3 = treegen.parse_json_report(out3.decode("utf-8"))[1]
+        payload["cached_groups"] = [[p.decode() for p in g["files"]] for g in g2]
+        for g in g2:
+            if len({open(p, "rb").read() for p in g["files"]}) > 1:
+                ctx.violation({"kind": "group_not_identical", "dimension": "symlink_cache"},
+                              "after a target was rewritten the cached -S run still groups its link with links to other bytes", payload, found_input=True)
+                break
+        if treegen.partition_key(g2) != treegen.partition_key(g3):
+            ctx.violation({"kind": "cached_ne_uncached", "dimension": "symlink_cache"}, "cached -S run differs from the uncached one", payload, found_input=True)
+        shutil.rmtree(base, ignore_errors=True)
+
+
+def persistent_failing_transform_cache_check(ctx, n):
+    """C15 with cache + transform: the program (`P $IN --no-copy`) fails for the files named bad* in EVERY run.  In the first and in
+    the second cached run those files are left out (never listed), the others are grouped as without them."""
+    core.build_fclones()
+    for i in range(n):
+        rng = ctx.rng.fork()
+        base = os.path.join(ctx.scratch, "pft%d" % i)
+        root = os.path.join(base, "r")
+        shutil.rmtree(base, ignore_errors=True)
+        os.makedirs(root)
+        prog = os.path.join(base, "pft_tr.sh")
+        mode = rng.choice(["none", "partial"])
+        with open(prog, "w") as f:
+            f.write("#!/bin/sh\ncase \"$(basename \"$1\")\" in bad*) %sexit 1;; esac\ncat \"$1\"\n" % ("head -c 3 \"$1\"; " if mode == "partial" else ""))
+        os.chmod(prog, 0o755)
+        size = rng.choice([10, 5000])
+        data = treegen.content(rng.next(), size)
+        good, bad = [], []
+        for k in range(3 + rng.below(3)):
+            p = os.path.join(root, "good%d" % k)
+            with open(p, "wb") as f:
+                f.write(data)
+            good.append(p)
+        for k in range(2 + rng.below(3)):
+            p = os.path.join(root, "bad%d" % k)
+            with open(p, "wb") as f:
+                f.write(data)
+            bad.append(p)
+        cache_home = os.path.join(base, "cache")
+        env0 = {"FCLONES_VERIF_DISK_KIND": "ssd", "XDG_CACHE_HOME": cache_home, "HOME": cache_home, "PATH": base + ":" + os.environ.get("PATH", "")}
+        opts = ["--transform", "pft_tr.sh $IN", "--no-copy", "--cache"] + rng.choice([[], ["--rf-over", "0"], ["--threads", "1"]])
+        for run in (1, 2):
+            rc, out, err = treegen.fclones(["group", root, "-f", "json"] + opts, env=env0)
+            ctx.count()
+            payload = {"scenario": "transform fails (%s output) for the files named bad* in every run; cached run %d" % (mode, run), "opts": opts,
+                       "stderr": err.decode("utf-8", "replace")[-400:]}
+            if rc != 0:
+                ctx.violation({"kind": "run_failed_under_fault", "scenario": "persistent_failing_transform"}, "fclones group exited %d" % rc, payload, found_input=True)
+                break
+            groups = treegen.parse_json_report(out.decode("utf-8"))[1]
+            listed = {p.decode() for g in groups for p in g["files"]}
+            payload["reported"] = [[p.decode() for p in g["files"]] for g in groups]
+            if listed & set(bad):
+                ctx.violation({"kind": "unreadable_file_reported", "scenario": "persistent_failing_transform"},
+                              "cached run %d lists files whose transform failed: %s" % (run, sorted(listed & set(bad))[:3]), payload, found_input=True)
+                break
+            if not any(set(good) <= {p.decode() for p in g["files"]} for g in groups):
+                ctx.violation({"kind": "other_files_dropped", "scenario": "persistent_failing_transform"},
+                              "cached run %d: the files whose transform works are not reported as one group" % run, payload, found_input=True)
+                break
+        ctx.distinct(("pft", i, mode, size, tuple(opts[4:])), True)
+        ctx.bump("directed_faults", "persistent_failing_transform+cache(%s)" % mode)
+        shutil.rmtree(base, ignore_errors=True)
